@@ -3,6 +3,7 @@ package keymap
 import (
 	"sort"
 	"strings"
+	"unicode/utf8"
 
 	"github.com/reeflective/readline/inputrc"
 	"github.com/reeflective/readline/internal/core"
@@ -107,6 +108,19 @@ func (m *Engine) dispatchKeys(binds map[string]inputrc.Bind) (bind inputrc.Bind,
 			break
 		}
 
+		// Multibyte characters are dispatched as a whole.
+		if len(read) == 0 && key >= utf8.RuneSelf {
+			if char, partial, ok := m.dispatchMultibyte(binds); ok {
+				read, prefix = char, partial
+
+				if !partial {
+					matched = char
+				}
+
+				break
+			}
+		}
+
 		read = append(read, key)
 
 		match, prefixed := m.matchBind(read, binds)
@@ -156,6 +170,41 @@ func (m *Engine) dispatchKeys(binds map[string]inputrc.Bind) (bind inputrc.Bind,
 	}
 
 	return m.active, prefix, read, matched
+}
+
+// dispatchMultibyte handles a multibyte UTF-8 character at the top of the key stack when no
+// bind deals with it, since the byte-oriented matching never does. The default keymaps bind
+// the 8-bit range 0x80-0xff (which Go strings collapse into utf8.RuneError) to self-insert:
+// that bind is used for the whole character. When the character is split across two reads,
+// its first bytes are returned as a prefix, so that the shell waits for the rest of it.
+func (m *Engine) dispatchMultibyte(binds map[string]inputrc.Bind) (char []byte, partial, ok bool) {
+	eightBit, found := binds[string(utf8.RuneError)]
+	if !found {
+		return nil, false, false
+	}
+
+	char, partial = core.PeekRune(m.keys)
+
+	if !partial {
+		if len(char) < 2 {
+			return nil, false, false
+		}
+
+		if match, prefixed := m.matchBind(char, binds); match.Action != "" || len(prefixed) > 0 {
+			return nil, false, false
+		}
+
+		m.active = eightBit
+		m.prefixed = inputrc.Bind{}
+	}
+
+	char = append([]byte{}, char...)
+
+	for range char {
+		core.PopKey(m.keys)
+	}
+
+	return char, partial, true
 }
 
 func (m *Engine) matchBind(keys []byte, binds map[string]inputrc.Bind) (inputrc.Bind, []inputrc.Bind) {
